@@ -791,11 +791,13 @@ def rec_envcopy(tier, seed, recs):
                 for _ in range(advance):
                     env.reset(batch_size=[2])       # the generator state has moved on since construction
                 B = 2 if quick else 3
+                snap = lambda e: (plain_state(e), plain_state(e.generator))   # noqa: E731
                 if how == "pickle":
-                    blob = pickle.dumps(env)
+                    blob, ps_o = pickle.dumps(env), snap(env)
                     nxt = env.generator([B])        # what the original produces next
                     nxt2 = env.reset(batch_size=[2])
                     env_r = pickle.loads(blob)      # restores the generator state of the moment of pickling
+                    ps_r = snap(env_r)
                     got = env_r.generator([B])
                     got2 = env_r.reset(batch_size=[2])
                 else:
@@ -806,12 +808,14 @@ def rec_envcopy(tier, seed, recs):
                     torch.set_rng_state(st)         # back to the moment of copying
                     if cur is not None:
                         env.generator.start_idx = cur
+                    ps_o = snap(env)
                     env_r = copy.deepcopy(env)
+                    ps_r = snap(env_r)
                     got = env_r.generator([B])
                     got2 = env_r.reset(batch_size=[2])
                 r1, _, w1 = td_compare(nxt, got)
                 r2, _, w2 = td_compare(nxt2, got2)
-                c = plain_state(env) == plain_state(env_r) and plain_state(env.generator) == plain_state(env_r.generator)
+                c = ps_o == ps_r
                 what = "%s(%s) %s after %d resets %s %s" % (type(env).__name__, "" if callable(params) else (params or ""),
                                                              how, advance, w1, w2)
                 if "action_mask" in nxt2.keys():
